@@ -39,6 +39,7 @@ def check(ctx):
     ctx.rule("R8", "the reader ends of the pipes between stages are closed only once the last stage is over: every call of the closer that releases them is made where the last stage is known to have finished (an alias stage runs on a thread of this process and reads through the very descriptor)", floor=3)
     ctx.rule("R9", "the thread that reaps a stage with the raw waitpid records the status it obtained - exit status or minus the signal - unconditionally: another watcher's Popen.poll() may already have stored the ECHILD placeholder 0 there", floor=2)
     ctx.rule("R10", "the reader thread never waits for the consumer: the chunk queue between them is unbounded and put() is a plain blocking-free call - iterraw's synchronous branch (R3) waits for the last stage to exit *before* it reads, so a producer that can block on a full queue stops draining the pipe, the stage blocks on write and the capture never returns for outputs above the bound", floor=2)
+    ctx.rule("R11", "a pipe end is closed once whatever the schedule of closers (the PrevProcCloser thread against the main thread's _close_prev_procs): the descriptor handed to os.close is read inside the same locked block that clears the field - a second, stale close of a recycled descriptor number hits an unrelated $() capture pipe, whose reader gets EBADF and the capture silently comes back empty (obligation shared with C09.R5)", floor=6)
     ctx.rule("R6", "captured stdout is not echoed to the terminal and stderr is not mixed into a stdout capture", floor=3)
 
     rd = ctx.repo.module(RD)
@@ -263,6 +264,9 @@ def check(ctx):
     _reader_ends(ctx)
     _reaper_records(ctx)
     _queue_unbounded(ctx)
+    from .c09 import pipe_end_closed_once
+
+    pipe_end_closed_once(ctx, "R11")
     _strip_patterns_bounded(ctx)
 
 
